@@ -22,6 +22,7 @@ type Clause struct {
 }
 
 type LoopSpec struct {
+	Assumes    []*Clause // trusted facts assumed on loop entry (counted as assumptions)
 	Invariants []*Clause
 	Decreases  *Clause
 	Modifies   []Expr
@@ -62,6 +63,8 @@ type FuncSpec struct {
 	Lets      []*LetSpec  // let NAME = expr : abbreviations evaluated in the entry (pre-call) state
 	Releases  []string    // parameters (pooled objects) whose ownership the function gives up
 	UnreachableOK int     // number of return/loop-body covers that may legitimately be unreachable
+	Assumes   []*Clause   // trusted post-conditions: assumed at call sites, not checked against the body
+	AssumePre []*Clause   // modelling assumptions available inside the body only (not checked at call sites)
 }
 
 type LetSpec struct {
@@ -373,6 +376,18 @@ func (fs *FuncSpec) addClause(t, file string, ln int) error {
 			return err
 		}
 		fs.Ensures = append(fs.Ensures, c)
+	case "assume_pre":
+		c, err := mk(kind, rest)
+		if err != nil {
+			return err
+		}
+		fs.AssumePre = append(fs.AssumePre, c)
+	case "assumes":
+		c, err := mk(kind, rest)
+		if err != nil {
+			return err
+		}
+		fs.Assumes = append(fs.Assumes, c)
 	case "ensures_panic":
 		c, err := mk(kind, rest)
 		if err != nil {
@@ -418,6 +433,12 @@ func (fs *FuncSpec) addClause(t, file string, ln int) error {
 				return err
 			}
 			ls.Invariants = append(ls.Invariants, c)
+		case "assume":
+			c, err := mk("assume", body)
+			if err != nil {
+				return err
+			}
+			ls.Assumes = append(ls.Assumes, c)
 		case "decreases":
 			c, err := mk("decreases", body)
 			if err != nil {
